@@ -128,6 +128,15 @@ macro_rules! enum_nse_task {
 }
 
 /// 单元测试
+/// Verification hook: compiled only with `--cfg arcj137442_narsese_rs_verif`, never in normal builds.
+/// * One expansion of [`enum_nse`] with a string literal, so that a static analysis of the compiled crate
+///   sees what the macro expands to (the whitespace filter applied before parsing).
+#[cfg(arcj137442_narsese_rs_verif)]
+#[allow(dead_code)]
+pub(crate) fn __verif_enum_nse_expansion() -> crate::enum_narsese::Narsese {
+    crate::enum_nse!("<A --> B>.")
+}
+
 #[cfg(test)]
 mod tests {
     use crate::{
